@@ -381,7 +381,9 @@ class Tensor:
         def visit_node(node):
             if node not in visited_nodes:
                 visited_nodes.add(node)
-                for child in node._children:
+                # a result without a backward function (computed while gradients were not tracked) ends the graph:
+                # nothing behind it is part of this call
+                for child in (node._children if node.grad_fn is not None else ()):
                     # leaves accumulate across calls; what an earlier call left on an intermediate
                     # result (retained, or kept because it was that call's root) must not be propagated again
                     if child.requires_grad and (child._grad is None or not child.is_leaf):
